@@ -38,6 +38,9 @@ type World struct {
 	// NoDataCheck disables the flat-memory comparison of read data (runs whose
 	// lower memory deliberately returns unique payloads).
 	NoDataCheck bool
+	// MakeReq, when set, builds requester i itself and returns its port; tops are
+	// the ports it may address (interleaved by il when more than one).
+	MakeReq func(i int, a *Asm, tops []messaging.Port, il uint64) messaging.Port
 	// OnBuilt is called once the assembly exists and before the run starts.
 	OnBuilt func(a *Asm)
 }
